@@ -240,7 +240,7 @@ pub const LINE_KINDS: [&str; 23] = [
     "",
     "garbage",
     // free text that ends with a bracket is not a section header; a section header followed by text is not one either
-    "label = s:unix:Linux:2.6.x [legacy]",
+    "label = s:unix:Linux:2.6.x: build 3:1 [legacy]",
     "sig   = 1:Host,User-Agent:Via:SomeBot/1.0 [en]",
     "label = Ethernet [std]",
     "[tcp:request] these are the SYN signatures",
@@ -336,7 +336,9 @@ pub fn ref_load(text: &str) -> Result<DbDesc, String> {
     Ok(d)
 }
 fn label_text(l: &huginn_net_db::Label) -> String {
-    format!("{}:{}:{}:{}", if l.ty == huginn_net_db::Type::Specified { "s" } else { "g" }, l.class.clone().unwrap_or("!".into()), l.name, l.flavor.clone().unwrap_or_default())
+    // the four parts are joined with a character no label holds: a flavour may contain colons ("2.6.x: build 3:1"), and
+    // joining with ':' would hide where the name ends
+    format!("{}\u{1f}{}\u{1f}{}\u{1f}{}", if l.ty == huginn_net_db::Type::Specified { "s" } else { "g" }, l.class.clone().unwrap_or("!".into()), l.name, l.flavor.clone().unwrap_or_default())
 }
 pub fn describe(db: &Database) -> DbDesc {
     DbDesc {
@@ -354,7 +356,7 @@ pub fn describe(db: &Database) -> DbDesc {
 fn norm_label(s: &str) -> String {
     // the reference keeps the label text as written; bring both to ty:class:name:flavor
     let p: Vec<&str> = s.splitn(4, ':').collect();
-    format!("{}:{}:{}:{}", p.first().unwrap_or(&""), p.get(1).unwrap_or(&""), p.get(2).unwrap_or(&""), p.get(3).unwrap_or(&""))
+    format!("{}\u{1f}{}\u{1f}{}\u{1f}{}", p.first().unwrap_or(&""), p.get(1).unwrap_or(&""), p.get(2).unwrap_or(&""), p.get(3).unwrap_or(&""))
 }
 pub fn check_text(r: &mut Report, text: &str, tag: &str) {
     r.exec(1);
@@ -514,7 +516,7 @@ pub fn run(thorough: bool) -> Outcome {
             ("label", "g:!:Other:"),
             ("sig", "4:64:0:1460:mss*4,0:mss:df:0"),
             ("[http:request]", ""),
-            ("label", "s:!:Firefox:10.x or newer"),
+            ("label", "s:!:Firefox:10.x or newer: ESR, 1:1 build"),
         ];
         let http_sig = ("sig", "1:Host,User-Agent,?Cookie,Accept=[*/*;q=0.8],?Via=[1.1 squid:3128]:Via,Accept-Charset:Firefox/");
         for sep in [" = ", "=", " =", "= ", "\t=\t", "   =   ", "\t= ", " =\t"] {
